@@ -14,6 +14,18 @@ Model of the recursive-descent parser: pkg/syntax/zh/zh_parser.go (token window,
   Go code would still be running).
 * `Variant` switches the three repairs (patches/fix-c05-*.patch, fix-c03-*.patch) on and off; `Variant.fixed` mirrors the repaired
   tree, `Variant.legacy` the pinned one.
+* Two later repairs of *positions* (no change of what is accepted, nor of the shape of the tree):
+  (4) `ParseAST`'s "tokens remain after the top-level block" error is built with `getInvalidSyntaxPeek` (the first left-over
+  token) instead of `getInvalidSyntaxCurr` (the last accepted token, on the line before) — under the variant (`leftoverFix`): no
+  rendering reaches that place, so the theorems stated for every variant keep holding for every variant;
+  (5) `ParseProgram` records the line of a 导入 statement (`setStmtCurrentLine(stmt, tk)`, `tk` = the 导入 token; before, the line
+  stayed 0) — NOT under the variant: it changes the tree that is returned, and the round-trip theorems of C03 are stated for every
+  variant against ONE rendering relation (`LinProgram`), which now says "the line of the 导入 token".  In this single line field
+  `Variant.legacy` therefore is the repaired code, not the pinned one;
+  (6) `ParseProgram` swallows every `；` that directly follows a 导入 statement (`for { tryConsume(TypeStmtSep) }`; before, the `；`
+  ended the import section: a following 导入 was syntax error 20, a following statement had an empty statement before it) — NOT
+  under the variant either, for the same reason: it changes which texts are accepted and the tree, and `LinImports` (one relation for
+  every variant) now renders `导入《甲》；导入《乙》`.
 -/
 import ZnVerif.Model.LexCore
 import ZnVerif.Model.Ast
@@ -45,10 +57,13 @@ structure Variant where
   ifFix : Bool
   /-- fix (3): the error builders tolerate a missing current token (legacy: nil dereference) -/
   nilFix : Bool
+  /-- fix (4): the error for tokens left over after the top-level block is positioned at the first left-over token
+  (legacy: at the last accepted token) -/
+  leftoverFix : Bool
   deriving Repr, DecidableEq
 
-def Variant.fixed : Variant := ⟨true, true, true⟩
-def Variant.legacy : Variant := ⟨false, false, false⟩
+def Variant.fixed : Variant := ⟨true, true, true, true⟩
+def Variant.legacy : Variant := ⟨false, false, false, false⟩
 
 /-- `ParserZH` after its first `next()` (before it `TokenP2` is nil and nothing reads it) -/
 structure PState (σ : Type) where
@@ -185,6 +200,16 @@ def tryConsume (tys : List Nat) : PM σ (Option Token) := do
     next ops fuel
     tryConsumeCore ops fuel tys
   else tryConsumeCore ops fuel tys
+
+/-- `for { if match, _ := p.tryConsume(tys…); !match { break } }`: swallow tokens of the listed types as long as `tryConsume`
+hands one out.  `k` bounds the passes (each pass consumes a token, so the Go loop ends; out of passes = the Go code would still
+be running). -/
+def swallowAll (tys : List Nat) : Nat → PM σ Unit
+  | 0 => fun _ => .fuel
+  | k + 1 => do
+    match ← tryConsume ops fuel tys with
+    | some _ => swallowAll tys k
+    | none => pure ()
 
 /-- start index used by `getInvalidSyntaxPeek` & co.: `TokenP1.StartIdx` is read first (nil dereference in the legacy
 code), then `TokenP2.StartIdx` wins -/
@@ -355,9 +380,13 @@ def pProgramLoop (indent : Nat) (inExec : Bool) (imports : List Import) (exec : 
       rec (.programLoop indent true imports (some x))
     else do
       match ← tryConsume ops fuel [cTypeImportW] with
-      | some _ => do
+      | some tk => do
         let im ← rec .importStmt
-        rec (.programLoop indent false (imports ++ [im]) exec)
+        let l ← lineOf ops tk   -- `p.setStmtCurrentLine(stmt, tk)`, after `ParseImportStmt` has returned
+        -- ‹导入语句› [‹间隔符› ‹导入语句›]*: every `；` that directly follows is swallowed (`tryConsume`: not across a statement
+        -- line break, and one comma before each is swallowed too)
+        swallowAll ops fuel [cTypeStmtSep] fuel
+        rec (.programLoop indent false (imports ++ [{ im with line := l }]) exec)
       | none => rec (.programLoop indent true imports exec)
   else pure { imports := imports, exec := exec }
 
@@ -850,7 +879,7 @@ def pCatchStmt : PM σ (Option Ident × Option (List Stmt)) := do
     let b ← rec (.block bi)
     pure (some cls, some b)
 
--- ParseImportStmt
+-- ParseImportStmt (the node's line stays 0 here; `ParseProgram` sets it)
 def pImportStmt : PM σ Import := do
   match ← tryConsume ops fuel [cTypeLibString, cTypeString] with
   | none => errPeek v 20
@@ -978,7 +1007,7 @@ def parseAST {σ : Type} (v : Variant) (ops : LexOps σ) (fuel : Nat) (l : σ) :
     | .panic => .otherErr
     | .ok pg s =>
       if s.p2.type ≠ cTypeEOF then
-        match (errCurr v : PM σ Unit) s with
+        match ((if v.leftoverFix then errPeek v 20 else errCurr v) : PM σ Unit) s with
         | .err e => .synErr e
         | .panic => .otherErr
         | _ => .otherErr
